@@ -4,7 +4,7 @@ CONFIG = {
     "streams": [{
         "name": "compile.rules", "harness": "rulesh", "driver": "drv_rules",
         "env": {"RULESH_STREAM": "rules"},
-        "n": {"quick": 4800, "thorough": 48000, "search": 9600},
+        "n": {"quick": 8000, "thorough": 48000, "search": 9600},
         "shards": {"quick": 16, "thorough": 16, "search": 16},
         "timeout_s": 1500,
         "rule": "seeded generator of single-field j5s files (every field type x rule presence/absence/zero/boundary values, "
